@@ -70,7 +70,7 @@ CHECKS["C17"] = dict(
           "exhaustively and for each shape CBMC decides, for all element values, that exactly prod(n_i) combinations are produced, combination j being the "
           "mixed-radix decoding of j, then None forever - with every index / overflow check on the way."),
     design_ref="DESIGN.md section 4, C17",
-    note="The JSON side of GridSearchPlugin::process is not covered (serde_json objects). Weakest use of the technique in this suite: the shape is enumerated, only element values are solver-decided.",
+    note="The JSON side of GridSearchPlugin::process is not covered (serde_json objects). Weakest use of the technique in this suite: the shape is enumerated, only element values are solver-decided. Of the 39 shapes the tiers currently run 19 (quick 8; thorough adds those whose first axis has one option): the 20 shapes with 2-3 options on the first axis make the Kani driver die under the memory cap in the thorough run and are outside the claim.",
     technique=TECH + "; shape space enumerated exhaustively",
 )
 CHECKS["C12"] = dict(
